@@ -13,7 +13,9 @@ Oracles (asserted only for a run r1 during which a disconnect or restart happene
      more than the data-log interval after the newest row of r1's plot log (or that log is empty), r1's plot log has an
      entry for the tag, and the engine has resent its uod_info (so the aggregator knows the interval) — a row with the
      reported value appears in a PlotLog of run r1;
- (c) after run_stopped(r1) there is exactly one RecentRun row for r1.
+ (c) after run_stopped(r1) there is exactly one RecentRun row for r1;
+ (a') once r1 was stopped and the engine is idle, a later re-registration must not make the aggregator hold r1 as the
+     active run again (it would be stored a second time).
 """
 from mc import agg_harness as H
 from mc.core import HarnessError
@@ -56,6 +58,17 @@ def check_step(obs, i, stats=None):
             kind = "lost" if agg["run"] is None else "changed"
             out.append((f"C28:run-{kind}:after-{_kinds(post, r)}",
                         f"engine is in run {r} and registered again after {_kinds(post, r)}; after {ev} (step {i}) the aggregator holds run {agg['run']}"))
+    # (a') a run that was stopped (and stored) is over: a later re-registration of the idle engine must not bring it back
+    if post["eng_run"] is None and post["registered"] and ev in ("reg", "bounce"):
+        for r0 in post["stopped"]:
+            if r0 in post["reopened"]:
+                continue
+            if stats is not None:
+                stats["a"] += 1
+            if agg["run"] == r0:
+                out.append((f"C28:stopped-run-resumed:after-{_kinds(post, r0)}",
+                            f"run {r0} was stopped and the engine is idle; after {ev} (step {i}) the aggregator holds run {r0} as the "
+                            f"engine's active run again (it would be stored a second time when the next run starts)"))
     # (b) tag data of the run arriving after the reconnect
     sent = rec["sent"]
     if sent and sent["run"] is not None and pre["interrupts"].get(sent["run"]):
